@@ -153,6 +153,11 @@ KERNELS = [
     dict(name="one_point_crossoverGP", file="utils/crossovers.py", func="one_point_crossoverGP",
          params=[("individs", "Tree2"), ("fitness", "Arr"), ("rank", "Arr"), ("max_level", "Int")], ret="Tree", streams=True,
          tree_calls={"subtree": "Tree_subtree", "concat": "Tree_concat", "get_common_region": "Tree_get_common_region"}),
+    # ---- growing_mutation: the freshly grown tree is `grower budget` (the result of Tree.growing_method(uniset, budget)),
+    #      so the theorem also says which depth budget the source passes
+    dict(name="growing_mutation", file="utils/mutations.py", func="growing_mutation",
+         params=[("tree", "Tree"), ("uniset", "Opaque"), ("proba", "Int"), ("max_level", "Int")], ret="Tree", streams=True,
+         tree_calls={"concat": "Tree_concat", "get_levels": "Tree_get_levels"}, tree_ext_fn={"Tree.growing_method": "grower"}),
     # ---- the donor strategies of differential evolution: straight-line vector arithmetic (translated over the ring Int: the
     #      float operations are read as ring operations) on rows chosen by random_sample, which is a parameter taking
     #      the call's actual arguments and the call's ordinal: `sample range_size quantity replace k`
@@ -179,7 +184,7 @@ LTY = {"Int": "Int", "Arr": "List Int", "Bool": "Bool", "Mat": "List (List Int)"
        "ArrSelf": "List (List Int)"}
 TREE_ATTR = {"_nodes": "nodes", "_n_args": "nargs"}
 DEFAULT = {"Int": "0", "Arr": "[]", "Bool": "false", "Mat": "[]"}
-RESERVED = ("_", "sampler", "wsampler", "end", "at", "from", "to", "in", "do", "then", "fun", "match", "with", "open", "by", "s", "us", "ns", "fuel", "rolls", "max", "min", "hi0", "samples", "self", "self_nodes", "self_nargs", "log", "stops", "kb", "value_ext", "tree")
+RESERVED = ("_", "grower", "sampler", "wsampler", "end", "at", "from", "to", "in", "do", "then", "fun", "match", "with", "open", "by", "s", "us", "ns", "fuel", "rolls", "max", "min", "hi0", "samples", "self", "self_nodes", "self_nargs", "log", "stops", "kb", "value_ext", "tree")
 
 
 class NotRecognised(Exception):
@@ -226,6 +231,8 @@ class Tr:
         self.ext = cfg.get("ext", {})
         self.ext_stream = cfg.get("ext_stream", {})
         self.ext_fn = cfg.get("ext_fn", {})
+        self.tree_ext_fn = cfg.get("tree_ext_fn", {})
+        self.opaque_params = {n for n, t in cfg["params"] if t == "Opaque"}
         self.self_state = cfg.get("self_state", [])
         self.method_uses = cfg.get("method_uses", {})
         self.tree_calls = cfg.get("tree_calls", {})
@@ -301,8 +308,10 @@ class Tr:
                 return "Tree" if self.is_tree_value(f.value) else self.ty(f.value)
             if isinstance(f, ast.Name) and f.id == "Tree":
                 return "Tree"
+            if nm in self.tree_ext_fn:
+                return "Tree"
             if self.is_tree_call(e):
-                return {"get_args_id": "Arr", "get_max_level": "Int", "get_common_region": "Mat"}.get(f.attr, "Tree")
+                return {"get_args_id": "Arr", "get_levels": "Arr", "get_max_level": "Int", "get_common_region": "Mat"}.get(f.attr, "Tree")
             if isinstance(f, ast.Attribute) and isinstance(f.value, ast.Name) and f.value.id == "self" and f.attr in self.tree_methods:
                 return KERNEL_BY_NAME[self.tree_methods[f.attr]]["ret"]
             if is_np(f, "empty", "arange", "zeros", "empty_like", "array", "cumsum"):
@@ -403,6 +412,16 @@ class Tr:
             _, nargs = self.tree_pair(e.func.value, env)
             t = self.tmp("Arr")
             lines.append(f"(match {self.tree_calls['get_args_id']} {self.E(e.args[0], env)} {nargs} with | some v => {{ s with {t} := v }} | none => {{ s with err := true }})")
+            env[id(e)] = f"s.{t}"
+            return
+        if self.is_tree_call(e, "get_levels"):
+            for a in e.args:
+                self.hoist(a, lines, env, guarded)
+            if guarded:
+                raise NotRecognised(f"effectful call {ast.unparse(e)} under a short-circuit operator")
+            nodes, nargs = self.tree_pair(e.func.value, env)
+            t = self.tmp("Arr")
+            lines.append(f"(match {self.tree_calls['get_levels']} {nodes} {nargs} {self.E(e.args[0], env)} with | some v => {{ s with {t} := v }} | none => {{ s with err := true }})")
             env[id(e)] = f"s.{t}"
             return
         if self.is_tree_call(e, "get_max_level"):
@@ -593,6 +612,16 @@ class Tr:
             tn, ta = self.tmp("Arr"), self.tmp("Arr")
             L.append(f"(match {self.tree_calls[e.func.attr]} {rn} {ra} {' '.join(args)} with | some v => {{ s with {tn} := Imp.getrow v (0 : Int), {ta} := Imp.getrow v (1 : Int), "
                      f"err := s.err || decide (v.length ≠ 2) }} | none => {{ s with err := true }})")
+            return f"s.{tn}", f"s.{ta}"
+        if isinstance(e, ast.Call) and callname(e.func) in self.tree_ext_fn:
+            par = self.tree_ext_fn[callname(e.func)]
+            actual = [a for a in e.args if not (isinstance(a, ast.Name) and a.id in self.opaque_params)]
+            if e.keywords:
+                raise NotRecognised(f"keyword arguments of {ast.unparse(e)}")
+            env.update(self.pre(actual, L))
+            tn, ta = self.tmp("Arr"), self.tmp("Arr")
+            call = f"({par} " + " ".join(self.E(a, env) for a in actual) + ")"
+            L.append(f"{{ s with {tn} := Imp.getrow {call} (0 : Int), {ta} := Imp.getrow {call} (1 : Int), err := s.err || decide (({call}).length ≠ 2) }}")
             return f"s.{tn}", f"s.{ta}"
         return self.tree_pair(e, env)
 
@@ -1269,6 +1298,7 @@ class Tr:
             extra += " (rolls : List Int)"
         extra += "".join(f" ({v} : List (List Int))" for v in self.ext_stream.values())
         extra += "".join(f" ({par} : " + " → ".join(LTY[KERNEL_PARAM_TY[nm_][a]] for a in names) + " → Nat → List Int)" for nm_, (par, names) in self.ext_fn.items())
+        extra += "".join(f" ({par} : Int → List (List Int))" for par in self.tree_ext_fn.values())
         extra += "".join(f" ({par} : List Int)" for _, par in self.opaque_if.values())
         extra += "".join(f" ({v} : Bool)" for v in self.not_none.values())
         extra += "".join(f" ({par} : List Int)" for par, _ in self.bool_stream.values())
